@@ -442,6 +442,16 @@ func genC13(r *prng) *plan {
 	// a third of the runs lose, duplicate and delay packets: offers, transfers and the header lookups the
 	// validator depends on then fail half-way; nothing may be accepted that would not be accepted otherwise
 	p.Cfg["faults"] = int64(r.intn(3) / 2)
+	if r.chance(30) {
+		// validations lose the processor at seeded points, datagrams arrive in batches and validating
+		// goroutines are held back to a common instant: several validations are in progress at once
+		p.Cfg["preempt"] = int64([]int{1, 2, 3, 5, 9, 17, 40}[r.intn(7)])
+		p.Cfg["quantum"] = int64([]int{0, 5, 20, 50}[r.intn(4)])
+		p.Cfg["align"] = int64([]int{0, 200, 200, 1000}[r.intn(4)])
+		for i := 0; i < 2+r.intn(4); i++ {
+			p.Ops = append(p.Ops, opSpec{K: "dual", N: []int64{int64(r.intn(3)), int64(1 + r.intn(9)), int64(r.intn(100)), int64(r.u64() >> 1)}})
+		}
+	}
 	return p
 }
 
@@ -498,6 +508,16 @@ func runC13(seed uint64) {
 		w.res.Class = "net-faults"
 		w.net.faultsOn = true
 		w.net.faults = netFaults{MinLatency: 2 * time.Millisecond, Jitter: 40 * time.Millisecond, DropPct: 4, DupPct: 3}
+	}
+	pre := uint64(p.cfg("preempt"))
+	if pre > 0 {
+		w.res.Class += "+preempt"
+		w.net.faults.Quantum = time.Duration(p.cfg("quantum")) * time.Millisecond
+		for _, ni := range V.nets {
+			if ni.val != nil {
+				ni.val.preemptEvery, ni.val.preemptSeed, ni.val.alignMs = pre, seed^0x93e, p.cfg("align")
+			}
+		}
 	}
 
 	type offered struct {
@@ -577,6 +597,21 @@ func runC13(seed uint64) {
 		}
 	}
 	w.runUntil(func() bool { return w.inflightTasks == 0 }, 100*time.Second)
+	if pre > 0 {
+		n, st, ov := uint64(0), 0, 0
+		for _, ni := range V.nets {
+			if ni.val != nil {
+				n += ni.val.preempts
+				st += ni.val.stalls
+				ov += ni.val.overlaps
+			}
+		}
+		w.res.Faults["preemption"] = int(n)
+		if st > 0 {
+			w.res.Faults["goroutine_stall"] = st
+		}
+		w.res.Probes["validations_overlapping"] = ov
+	}
 	w.runFor(10 * time.Second)
 	for _, pr := range V.panics {
 		w.violate("C13", "panic", "%s panicked instead of rejecting with an error: %v @ %s", pr.where, pr.val, shisuiFrames(pr.stack))
